@@ -78,3 +78,34 @@ def crossbar_shape(ctx, rid, rel, cls, decoder_cls, arbiter_cls):
         ctx.ob(rid, rel, cls, f"{M} masters x {N} slaves: one {decoder_cls} per master on its row, one {arbiter_cls} per slave bus on its column",
                ok, "" if ok else "; ".join(problems[:4]) + ": with M != N masters/slaves zip() truncates and the last slaves are unreachable "
                                                            "(or the last masters unconnected)", init)
+
+
+def internal_bus_width(ctx, rid, rel, classes, iface_cls, width_kw, master_attr, extra_funcs=()):
+    """Every internal interface an interconnect builds carries the full address of every master: constructors interpreted
+    (lxs/pyconst.py) on masters of different address widths, in both orders; each recorded `iface_cls(...)` must be given the widest
+    master's address width (a narrower shared bus cuts the upper address bits before the decoder sees them)."""
+    wm = ctx.mod(rel)
+    funcs = {f.name: f for f in wm.tree.body if isinstance(f, ast.FunctionDef)}
+    for r2 in extra_funcs:
+        funcs.update({f.name: f for f in ctx.mod(r2).tree.body if isinstance(f, ast.FunctionDef)})
+    for cls in classes:
+        fn = wm.method(cls, "__init__")
+        ctx.analysed["functions"].add(f"{rel}::{cls}.__init__")
+        bad, n_if = None, 0
+        for widths in ([8, 12], [12, 8], [10, 10, 30], [30]):
+            masters = [pyconst.NS(**{master_attr: w, "data_width": 32, "__cls__": (iface_cls,)}) for w in widths]
+            slaves = [(pyconst.Tok("match", i), pyconst.NS(**{master_attr: 30, "data_width": 32})) for i in range(2)]
+            it = pyconst.Interp({"self": pyconst.NS(), "masters": masters, "slaves": slaves, "register": False, "timeout_cycles": 100},
+                                objects=True, funcs=funcs)
+            try:
+                it.run(fn.body)
+            except Exception as ex:
+                ctx.need(False, f"{cls}.__init__ cannot be interpreted ({ex})")
+            ifs = [o for o in it.created if o.cls == iface_cls]
+            n_if += len(ifs)
+            for o in ifs:
+                aw = o.kwargs.get(width_kw)
+                if aw != max(widths) and bad is None:
+                    bad = f"masters with address widths {widths}: an internal {iface_cls} is built with {width_kw}={aw}: the upper address bits of " \
+                          f"the wider master never reach the decoder, its access to a high / unmapped address selects a slave of the low range"
+        ctx.ob(rid, rel, cls, "internal bus address width = widest master", bad is None and n_if >= 4, bad or f"only {n_if} internal interfaces built", fn)
